@@ -11,6 +11,7 @@ import (
 	"encoding/json"
 	"fmt"
 	"path/filepath"
+	"regexp"
 	"strings"
 	"time"
 )
@@ -39,7 +40,8 @@ func upV1Spec() upSpec {
 	return upSpec{
 		DKind: "struct",
 		DFields: []upField{{"n", "Int", "access(all)", false}, {"s", "String", "access(all)", false}, {"xs", "[Int]", "access(all)", false},
-			{"inner", "N", "access(all)", false}, {"k", "K", "access(all)", false}, {"opt", "Int?", "access(all)", false}},
+			{"inner", "N", "access(all)", false}, {"k", "K", "access(all)", false}, {"opt", "Int?", "access(all)", false},
+			{"both", "{I, J}", "access(all)", false}, {"boths", "[{I, J}]", "access(all)", false}},
 		DConforms: []string{"I", "J"},
 		NFields:   []upField{{"v", "Int", "access(all)", false}},
 		HasN:      true,
@@ -132,6 +134,7 @@ func (s upSpec) Source() string {
 		}
 		sb.WriteString("        }\n    }\n")
 	}
+	sb.WriteString("    access(all) struct M: I, J {\n        access(all) fun id(): Int { return 3 }\n        init() {}\n    }\n")
 	conf := ""
 	if len(s.DConforms) > 0 {
 		conf = ": " + strings.Join(s.DConforms, ", ")
@@ -152,6 +155,17 @@ func (s upSpec) Source() string {
 			fmt.Fprintf(&sb, "            self.k = K(rawValue: %s(n %% 3))!\n", s.EnumRaw)
 		case f.Name == "opt" && f.Type == "Int?":
 			sb.WriteString("            self.opt = n % 2 == 0 ? n : nil\n")
+		case f.Name == "both" && f.Type == "{I, J}":
+			sb.WriteString("            self.both = M()\n")
+		case f.Name == "boths" && f.Type == "[{I, J}]":
+			sb.WriteString("            self.boths = [M(), M()]\n")
+		case f.Name == "both" || f.Name == "boths":
+			// a retyped intersection field: the initializer is irrelevant for stored data, it only has to type check
+			if strings.HasPrefix(f.Type, "[") {
+				fmt.Fprintf(&sb, "            self.%s = []\n", f.Name)
+			} else {
+				fmt.Fprintf(&sb, "            self.%s = M2()\n", f.Name)
+			}
 		default:
 			fmt.Fprintf(&sb, "            self.%s = %s\n", f.Name, defaultOf(f.Type))
 		}
@@ -231,6 +245,30 @@ func upMutations() []upMutation {
 		{"D.retype-inner-D?", func(s *upSpec) { s.DFields = retype(s.DFields, "inner", "N?") }},
 		{"D.retype-k-UInt8", func(s *upSpec) { s.DFields = retype(s.DFields, "k", "UInt8") }},
 		{"D.retype-xs-AnyStruct", func(s *upSpec) { s.DFields = retype(s.DFields, "xs", "[AnyStruct]") }},
+		{"D.retype-both-{I,L}", func(s *upSpec) {
+			s.DFields = retype(s.DFields, "both", "{I, L}")
+			s.Extra = append(s.Extra, "access(all) struct interface L {}", "access(all) struct M2: I, L { access(all) fun id(): Int { return 4 }; init() {} }")
+		}},
+		{"D.retype-both-{L,J}", func(s *upSpec) {
+			s.DFields = retype(s.DFields, "both", "{L, J}")
+			s.Extra = append(s.Extra, "access(all) struct interface L {}", "access(all) struct M2: L, J { init() {} }")
+		}},
+		{"D.retype-both-{J,I}", func(s *upSpec) {
+			s.DFields = retype(s.DFields, "both", "{J, I}")
+			s.Extra = append(s.Extra, "access(all) struct M2: I, J { access(all) fun id(): Int { return 4 }; init() {} }")
+		}},
+		{"D.retype-both-{I}", func(s *upSpec) {
+			s.DFields = retype(s.DFields, "both", "{I}")
+			s.Extra = append(s.Extra, "access(all) struct M2: I { access(all) fun id(): Int { return 4 }; init() {} }")
+		}},
+		{"D.retype-boths-[{I,L}]", func(s *upSpec) {
+			s.DFields = retype(s.DFields, "boths", "[{I, L}]")
+			s.Extra = append(s.Extra, "access(all) struct interface L {}")
+		}},
+		{"D.retype-boths-[{J,I,L}]", func(s *upSpec) {
+			s.DFields = retype(s.DFields, "boths", "[{J, I, L}]")
+			s.Extra = append(s.Extra, "access(all) struct interface L {}")
+		}},
 		{"D.reorder-fields", func(s *upSpec) {
 			n := len(s.DFields)
 			out := make([]upField, n)
@@ -337,6 +375,10 @@ func (s upSpec) probe(v1 upSpec) (string, []string) {
 				} else {
 					exp = append(exp, "nil")
 				}
+			case f.Name == "both":
+				exp = append(exp, "Int(3)")
+			case f.Name == "boths":
+				exp = append(exp, "Int(2)")
 			default:
 				exp = append(exp, "<any>")
 			}
@@ -419,14 +461,9 @@ func (s upSpec) probe(v1 upSpec) (string, []string) {
 
 func sanitize(s string) string { return strings.NewReplacer(".", "_", "[", "_", "]", "_", "\"", "", "!", "").Replace(s) }
 
-func qualify(t string) string {
-	r := strings.NewReplacer("N", "Upg.N", "K", "Upg.K", "D", "Upg.D")
-	switch strings.TrimSuffix(t, "?") {
-	case "N", "K", "D":
-		return r.Replace(t)
-	}
-	return t
-}
+var qualifyRe = regexp.MustCompile(`\b(I|J|L|N|K|D|M)\b`)
+
+func qualify(t string) string { return qualifyRe.ReplaceAllString(t, "Upg.$1") }
 
 // readValue reads every field the new version declares on D, with its declared type, from the struct variable v.
 func (s upSpec) readValue(sb *strings.Builder, v string, n int, v1 upSpec) {
@@ -454,6 +491,10 @@ func (s upSpec) readValue(sb *strings.Builder, v string, n int, v1 upSpec) {
 			} else {
 				sb.WriteString("    out.append(false)\n")
 			}
+		case f.Name == "both":
+			fmt.Fprintf(sb, "    let %s_both: %s = %s.both\n    out.append(%s_both.id())\n", v, qualify(f.Type), v, v)
+		case f.Name == "boths":
+			fmt.Fprintf(sb, "    let %s_boths: %s = %s.boths\n    for e in %s_boths { let x: Int = e.id() }\n    out.append(%s_boths.length)\n", v, qualify(f.Type), v, v, v)
 		default:
 			fmt.Fprintf(sb, "    let %s_%s: %s = %s.%s\n    out.append(%s_%s)\n", v, f.Name, qualify(f.Type), v, f.Name, v, f.Name)
 		}
